@@ -4,3 +4,4 @@ import GoldilocksVerif.Props.C11
 import GoldilocksVerif.Props.C13
 import GoldilocksVerif.Props.C14
 import GoldilocksVerif.Props.C10
+import GoldilocksVerif.Props.C15
